@@ -18,8 +18,8 @@ mkdir -p "$BUILD/bin"
 overlay() { # writes $BUILD/overlay.<hash>.json for $VERIF_REPO, prints its path
   local tag
   tag=$(echo "$VERIF_REPO" | sha256sum | cut -c1-10)
-  python3 "$ROOT/tools/mkoverlay.py" "$ROOT/harness" "$VERIF_REPO" > "$BUILD/overlay.$tag.json.tmp" || exit 2
-  mv "$BUILD/overlay.$tag.json.tmp" "$BUILD/overlay.$tag.json"
+  python3 "$ROOT/tools/mkoverlay.py" "$ROOT/harness" "$VERIF_REPO" > "$BUILD/overlay.$tag.json.tmp.$$" || exit 2
+  mv "$BUILD/overlay.$tag.json.tmp.$$" "$BUILD/overlay.$tag.json"
   [ "$VERIF_REPO" = /repo ] && cp "$BUILD/overlay.$tag.json" "$BUILD/overlay.json"
   echo "$BUILD/overlay.$tag.json"
 }
